@@ -5,6 +5,7 @@ import re, struct
 from lib import Case, hx, unhx, enc_cfg
 
 LIBM = re.compile(r'\b(log|exp|pow|sin|cos|tan|asin|acos|atan|r2p|p2r|sqrt)\s*\(')   # outside the bit-exact binary32 instance
+NONFINITE = re.compile(r'="[^"]*\b(inf|NaN)\b')
 NUMKEYS = ('loop_limit', 'var_limit', 'depth_limit', 'seed', 'border')
 
 
@@ -93,6 +94,9 @@ def compare(lib, items, stats=None, shards=12):
         a, b = im.get(ci.id), mo.get(cm.id)
         if not b or b[0] in ('SKIP', 'OUTOFFUEL', 'TIMEOUT', 'STACKOVERFLOW') or (b[0] == 'ERR' and b[1] == 'OtherError') or (a and a[0] == 'TIMEOUT'):
             skipped += 1       # construct outside the composed model (bearing path, <config>, <defaults>) or its fuel
+            continue
+        if a and a[0] == 'OK' and NONFINITE.search(unhx(a[1]) if isinstance(unhx(a[1]), str) else ''):
+            skipped += 1       # inf / NaN in the written geometry: outside the bit-exact instance
             continue
         if a and a[0] == b[0] and (a[1] == b[1] if a[0] == 'OK' else (b[1] == 'MultiError' or a[1] == b[1])):
             same += 1
